@@ -197,7 +197,9 @@ impl Db {
         if rebuild {
             log::info!("rebuilding search index at {}", config.index_path.display());
 
-            let mut writer = db.index.writer(50_000_000)?;
+            // A single indexing thread keeps the document order (and with it
+            // the ranking of equally scored constants) the same for every build.
+            let mut writer = db.index.writer_with_num_threads(1, 50_000_000)?;
             writer.delete_all_documents()?;
 
             for name in config.assets() {
